@@ -1,11 +1,17 @@
 """C18 — resuming from a backup continues the same simulation.
 
-Model-level theorems: Props/C18.lean (resume_eq for every interruption point, given restore∘backup = id;
-one engine step is a function of the world alone).
-Tie: for generated programs (those of C01; components imported from vcheck/components.py so that they
-unpickle in another process) and EVERY step boundary n: run to n, `write_backup`, restore with
-`dill.load` in a FRESH process under a different PYTHONHASHSEED and global-RNG state, continue to the
-end; the per-step digests of the state table and the final results must equal the uninterrupted run.
+Model-level theorems: Props/C18.lean (resume_eq for every interruption point, given restore∘backup = id; any number of
+interruptions in a row; the backups `run(backup_path, backup_freq)` writes are exactly the worlds at the step boundaries
+and writing them does not disturb the run; resuming through run / run_until; one engine step is a function of the world alone).
+Tie: for generated programs (those of C01; components imported from vcheck/components.py so that they unpickle in
+another process) and EVERY step boundary n: the backup of boundary n – written by `write_backup` on an engine context, by
+`write_backup` on an InteractiveContext, or by the engine's own `run(backup_path, backup_freq)` loop (one process writes
+all of them and carries on: its own run must not be disturbed; plus simulated crashes) – is restored with `dill.load` in
+a FRESH process under a different PYTHONHASHSEED and global-RNG state, possibly after other simulations have run in that
+process, and continued to the configured end through step / run / take_steps / run_until; one boundary per program is
+interrupted a SECOND time (restore, a few steps, backup, restore in a third process). The per-step digests of the state
+table and of the results so far and the final results must equal the uninterrupted run; the event skeleton of every
+resumed run is compared with the model's (Driver/C01.lean: steps, backup, lost partial step, restore, drive).
 """
 from __future__ import annotations
 
@@ -17,21 +23,31 @@ import tempfile
 from .. import enginekit
 from ..runner import Prop
 
+SOURCES = ["wb", "ib", "rb"]     # write_backup on an engine context / on an InteractiveContext / run(backup_path, backup_freq)
+SPEC_MODES = ["services", "hash", "api", "crn", "results", "mixed", "tiny"]
+
+
+def _cpython(err, trace):
+    """CPython's pickler asserts when two EMPTY buffers share an id (protocol 5, empty numpy arrays of an empty
+    population): an interpreter defect, not vivarium's; the boundary is skipped and counted in the tags"""
+    return bool(err and err.startswith("AssertionError") and "in memoize" in (trace or "") and "pickle.py" in (trace or ""))
+
 
 class C18(Prop):
     id = "C18"
     lean_modules = ["VivModel.Props.C18"]
     build_targets = ["VivModel.Model.Engine", "VivModel.Model.Events", "VivModel.Model.Proto"]
-    driver = None
-    technique = "Lean 4 proof (iter_add / resume_eq for every interruption point) + backup/restore differential at every step boundary in fresh processes"
+    driver = "C01"
+    technique = "Lean 4 proof (iter_add / resume_eq / resume_chain_eq for every interruption point) + backup/restore differential at every step boundary in fresh processes"
     partial = ("fidelity of dill on the live object graph (closures over clocks, re-bound constrained methods, cached graphs, logging handles) "
                "is runtime behaviour; it is explored at every step boundary of every generated program, not proved")
-    n_quick = 4
+    n_quick = 7
     n_thorough = 60
-    workers = 2
-    case_timeout = 900
-    rule = ("each case = one generated program (as C01); for EVERY step boundary n (0..N) the run is saved with write_backup in one process "
-            "and resumed with dill.load in a fresh process under another hash seed; evaluations counts programs; "
+    workers = 3
+    case_timeout = 1200
+    rule = ("each case = one generated program (as C01); for EVERY step boundary n (0..N) a backup written by write_backup (engine and "
+            "interactive contexts) or by run(backup_path, backup_freq) is resumed with dill.load in a fresh process under another hash seed "
+            "through step / run / take_steps / run_until, one boundary is interrupted twice; evaluations counts programs; "
             "non-trivial = at least 2 boundaries and digests that change between steps")
 
     def boundary(self):
@@ -39,76 +55,208 @@ class C18(Prop):
                 "births": [2, 0, 1], "mort": {"mods": 1}, "disease": {"states": 3, "p": [5, 8], "self": True},
                 "stepmod": {"every": 3, "mult": 2}, "obs": {"strats": 3, "concat": True, "values": 5}, "extras": {"pafs": [0.25, 0.5]}}
         vary = dict(full, step=1, n_steps=6, pop=6, births=[1, 0], disease=None, obs=None, stepmod={"every": 2, "mult": 3, "vary": True})
-        return [{"spec": full, "hs_save": 1, "hs_resume": 2, "noise": 5}, {"spec": vary, "hs_save": 0, "hs_resume": 3, "noise": 9, "interactive_saves": True}]
+        # everything that lives OUTSIDE the state table and must ride along in the backup: an activated triggered transition, a
+        # transient state, a stateful to_observe, private per-simulant state, a stream not used before the interruption,
+        # handles of other components, configuration-built tables, int CRN keys with births after the restore
+        state = {"clock": "simple", "step": 2, "n_steps": 4, "pop": 8, "seed": 21, "crn_keys": 3, "uid_kind": "int", "map_size": 997,
+                 "births": [2, 1], "birth_phase": "time_step__cleanup", "newborn": {"age0": 8}, "perm": True,
+                 "pop_extra": {"dist": "scipy", "p2d": True, "residual": "local"},
+                 "mort": {"mods": 3, "scale": 8, "form": "prob", "kinds": ["lambda", "partial", "object"]},
+                 "disease": {"states": 4, "p": [5, 8], "self": True, "back": True, "excess": True, "trig": {"at": 1, "every": 2}, "transient": True},
+                 "stepmod": None,
+                 "obs": {"strats": 3, "when": "time_step", "concat": True, "defaults": ["sex"], "values": 3, "rich": True, "report": True},
+                 "extras": {"pafs": [0.25], "cat": True, "tables": True, "ds": "name", "art": None, "late": 2, "private": True, "foreign": True},
+                 "order": [5, 1]}
+        return [{"spec": full, "hs_save": 1, "hs_resume": 2, "noise": 5, "plan": 1},
+                {"spec": vary, "hs_save": 0, "hs_resume": 3, "noise": 9, "plan": 2},
+                {"spec": state, "hs_save": "random", "hs_resume": "random", "noise": 13, "plan": 3}]
 
     def generate(self, rng: random.Random, i: int, tier: str):
-        spec = enginekit.gen_spec(rng, small=(tier == "quick"))
+        spec = enginekit.gen_spec(rng, small=(tier == "quick"), mode=SPEC_MODES[i % len(SPEC_MODES)])
         return {"spec": spec, "hs_save": rng.choice([0, 1, "random"]), "hs_resume": rng.choice([2, 3, "random"]),
-                "noise": rng.randint(0, 10_000), "all_crash_points": tier == "thorough", "interactive_saves": rng.random() < 0.5}
+                "noise": rng.randint(0, 10_000), "thorough": tier == "thorough", "plan": rng.randint(0, 10 ** 6)}
 
     def shrink(self, case):
         s = case["spec"]
-        for k in ("obs", "disease", "mort", "stepmod", "extras"):
+        for k in ("obs", "disease", "mort", "stepmod", "extras", "pop_extra", "newborn"):
             if s.get(k):
                 yield dict(case, spec=dict(s, **{k: None}))
         if s["n_steps"] > 1:
             yield dict(case, spec=dict(s, n_steps=s["n_steps"] - 1))
 
-    def run_impl(self, case):
+    # ------------------------------------------------------------------ the plan of one case (a function of the case alone)
+    def _plan(self, case, nsteps):
+        rng = random.Random(f"plan:{case.get('plan', 0)}")
         spec = case["spec"]
+        srcs = [s for s in SOURCES if not (s == "rb" and spec["pop"] == 0)]
+        bounds = []
+        for n in range(nsteps + 1):
+            use = srcs if case.get("thorough") else [srcs[(n + case.get("plan", 0)) % len(srcs)]]
+            for src in use:
+                bounds.append({"n": n, "src": src, "mode": rng.choice(["step", "run", "take", "until"]),
+                               "prior": rng.choice([[], [], [], ["rich"], ["empty", "rich"], ["interleaved"]]), "peek": rng.random() < 0.3})
+        crash = sorted({0, max(0, nsteps - 1)}) if not case.get("thorough") else list(range(nsteps))
+        chain = None
+        if nsteps >= 2:
+            n1 = rng.randint(0, nsteps - 2)
+            chain = {"n": n1, "src": rng.choice(srcs), "after": rng.randint(1, nsteps - 1 - n1), "mode": rng.choice(["step", "run", "until"])}
+        return {"bounds": bounds, "crash": [n for n in crash if n < nsteps or n == 0], "chain": chain, "sources": srcs}
+
+    def run_impl(self, case):
+        from .. import components
+        spec = dict(case["spec"])
         d = tempfile.mkdtemp(prefix="vc18-")
         try:
-            full = enginekit.run_worker({"spec": spec, "mode": "step", "noise": 0, "prior_contexts": 0}, 0)
+            if (spec.get("extras") or {}).get("art"):
+                spec["artifact_path"] = components.write_artifact(os.path.join(d, "artifact.hdf"))
+            # round 1: the uninterrupted run, the processes that write the backups of every boundary, the simulated crashes
+            ctx = {"wb": "engine", "ib": "interactive", "rb": "engine"}
+            sources = self._plan(case, 0)["sources"]
+            savers = [({"spec": spec, "mode": "step", "noise": case["noise"], "prior": ["rich"],
+                        "save_all": {"dir": d, "prefix": s, "ctx": ctx[s], "how": "run_backup" if s == "rb" else "write_backup"}}, case["hs_save"])
+                      for s in sources]
+            # the engine's own backup path with a simulated crash (run(backup_path, backup_freq) + exception in the next step);
+            # the crash points come from the CONFIGURED number of steps (per-simulant clocks: the first boundaries)
+            cfg_n = components.expected_steps(spec)
+            crash_ns = self._plan(case, cfg_n if cfg_n is not None else 2)["crash"]
+            crashes = [({"spec": spec, "mode": "step", "noise": case["noise"] + 2, "prior": [], "crash_at": n,
+                         "save_path": os.path.join(d, f"crash{n}.pkl")}, case["hs_save"]) for n in crash_ns]
+            r1 = enginekit.run_workers([({"spec": spec, "mode": "step", "noise": 0, "prior": []}, 0)] + savers + crashes, parallel=8)
+            full, sres, cres = r1[0], r1[1:1 + len(savers)], r1[1 + len(savers):]
             if full.get("error"):
-                return {"full": {"error": full["error"], "trace": full.get("trace", "")[-400:]}, "resumed": []}
+                return {"full": {"error": full["error"], "trace": full.get("trace", "")[-400:]}, "resumed": [], "savers": []}
             nsteps = sum(1 for x in full["digests"] if x.startswith("metrics:"))
-            saves = [({"spec": spec, "mode": "step", "noise": case["noise"], "prior_contexts": 1, "save_at": n,
-                       "save_ctx": "interactive" if (case.get("interactive_saves") and n % 2 == 1) else "engine",
-                       "save_path": os.path.join(d, f"bk{n}.pkl")}, case["hs_save"]) for n in range(nsteps + 1)]
-            # the engine's own backup path with a simulated crash (run(backup_path, backup_freq) + exception in the next step)
-            crash_ns = list(range(nsteps + 1)) if case.get("all_crash_points") else sorted({0, nsteps // 2, nsteps})
-            crashes = [({"spec": spec, "mode": "step", "noise": case["noise"] + 2, "prior_contexts": 0, "crash_at": n,
-                         "save_path": os.path.join(d, f"crash{n}.pkl")}, case["hs_save"]) for n in crash_ns if n < nsteps or n == 0]
-            sres = enginekit.run_workers(saves + crashes, parallel=10)
-            cres = sres[len(saves):]
-            sres = sres[:len(saves)]
-            resumes = [({"spec": spec, "mode": "step", "noise": case["noise"] + 1, "resume_path": os.path.join(d, f"bk{n}.pkl")},
-                        case["hs_resume"]) for n in range(nsteps + 1)]
-            cresumes = [({"spec": spec, "mode": "step", "noise": case["noise"] + 3, "resume_path": j["save_path"]}, case["hs_resume"])
+            plan = self._plan(case, nsteps)
+            resumes = [({"spec": spec, "noise": case["noise"] + 1 + k, "resume_path": os.path.join(d, f"{b['src']}{b['n']}.pkl"),
+                         "resume_mode": b["mode"], "prior": b["prior"], "peek": b["peek"]}, case["hs_resume"]) for k, b in enumerate(plan["bounds"])]
+            cresumes = [({"spec": spec, "noise": case["noise"] + 3, "resume_path": j["save_path"], "resume_mode": "run", "prior": []}, case["hs_resume"])
                         for j, _ in crashes]
-            rres = enginekit.run_workers(resumes + cresumes, parallel=10)
-            crres = rres[len(resumes):]
-            rres = rres[:len(resumes)]
+            ch = plan["chain"]
+            leg1 = [({"spec": spec, "noise": case["noise"] + 7, "resume_path": os.path.join(d, f"{ch['src']}{ch['n']}.pkl"), "prior": [],
+                      "then_save": {"after": ch["after"], "path": os.path.join(d, "chain.pkl")}}, case["hs_resume"])] if ch else []
+            r2 = enginekit.run_workers(resumes + cresumes + leg1, parallel=10)
+            rres, crres, l1 = r2[:len(resumes)], r2[len(resumes):len(resumes) + len(cresumes)], r2[len(resumes) + len(cresumes):]
+            l2 = []
+            if ch and not l1[0].get("error"):
+                l2 = enginekit.run_workers([({"spec": spec, "noise": case["noise"] + 8, "resume_path": os.path.join(d, "chain.pkl"),
+                                              "resume_mode": ch["mode"], "prior": []}, case["hs_save"])], parallel=1)
+
+            def rec(label, n, mode, src, s_err, s_trace, r):
+                return {"n": label, "boundary": n, "mode": mode, "src": src, "save_error": s_err, "error": r.get("error") if r else None,
+                        "digests": r.get("digests") if r else None, "results": r.get("results") if r else None,
+                        "final_table": r.get("final_table") if r else None, "events": r.get("events") if r else None,
+                        "save_trace": (s_trace or "")[-600:] if s_err else "", "ctx": r.get("ctx") if r else None,
+                        "trace": (r.get("trace") or "")[-600:] if r and r.get("error") else ""}
             out = []
+            skipped = {s: set((sr.get("skipped") or [])) for s, sr in zip(plan["sources"], sres)}
+            serr = {s: (sr.get("error"), sr.get("trace")) for s, sr in zip(plan["sources"], sres)}
             for (j, _), s_, r in zip(crashes, cres, crres):
-                out.append({"n": f"crash@{j['crash_at']}", "save_error": s_.get("error"), "error": r.get("error"), "digests": r.get("digests"),
-                            "results": r.get("results"), "final_table": r.get("final_table"),
-                            "save_trace": (s_.get("trace") or "")[-600:] if s_.get("error") else "",
-                            "trace": (r.get("trace") or "")[-500:] if r.get("error") else ""})
-            for n, (s, r) in enumerate(zip(sres, rres)):
-                out.append({"n": n, "save_error": s.get("error"), "error": r.get("error"), "digests": r.get("digests"),
-                            "results": r.get("results"), "final_table": r.get("final_table"),
-                            "save_trace": (s.get("trace") or "")[-600:] if s.get("error") else "",
-                            "trace": (r.get("trace") or "")[-500:] if r.get("error") else ""})
-            return {"full": {"error": None, "digests": full["digests"], "results": full["results"], "final_table": full["final_table"]},
-                    "nsteps": nsteps, "resumed": out}
+                out.append(rec(f"crash@{j['crash_at']}", min(j["crash_at"], nsteps), "run", "crash", s_.get("error"), s_.get("trace"), r))
+            for b, r in zip(plan["bounds"], rres):
+                e, t = serr[b["src"]]
+                if b["n"] in skipped[b["src"]]:
+                    e, t = "AssertionError: (cpython) ", "pickle.py in memoize"
+                out.append(rec(f"{b['src']}{b['n']}/{b['mode']}" + ("+" + ",".join(b["prior"]) if b["prior"] else ""), b["n"], b["mode"], b["src"], e, t, r))
+            if ch:
+                e, t = serr[ch["src"]]
+                if ch["n"] in skipped[ch["src"]]:
+                    e, t = "AssertionError: (cpython) ", "pickle.py in memoize"
+                if l1[0].get("error"):
+                    out.append(rec(f"chain:{ch['src']}{ch['n']}+{ch['after']} (second backup)", ch["n"], ch["mode"], ch["src"], e, t, l1[0]))
+                else:
+                    out.append(rec(f"chain:{ch['src']}{ch['n']}+{ch['after']}/{ch['mode']}", ch["n"] + ch["after"], ch["mode"], ch["src"], e, t, l2[0]))
+            sv = [{"src": s, "error": sr.get("error"), "trace": (sr.get("trace") or "")[-600:] if sr.get("error") else "", "digests": sr.get("digests"),
+                   "results": sr.get("results"), "boundaries": sr.get("boundaries"), "skipped": sorted(sr.get("skipped") or [])}
+                  for s, sr in zip(plan["sources"], sres)]
+            return {"full": {"error": None, "digests": full["digests"], "results": full["results"], "final_table": full["final_table"],
+                             "events": full["events"]}, "nsteps": nsteps, "resumed": out, "savers": sv}
         finally:
             shutil.rmtree(d, ignore_errors=True)
 
+    # ------------------------------------------------------------------ model side: every resumed run
+    def _skeleton_prefix(self, spec, ev):
+        from .c01 import C01
+        start, step, stop = C01._ticks(spec)
+        sched, init = [], "n"
+        if spec.get("stepmod"):
+            prep = [e for e in ev if e[0] in ("prepare", "end")]
+            mets = [e for e in ev if e[0] == "metrics"]
+            if spec["pop"] > 0:
+                init = str(prep[0][2])
+            for k in range(len(mets)):
+                nxt = prep[k + 1][2] if k + 1 < len(prep) else None
+                sched.append(str(nxt) if (mets[k][4] > 0 and nxt is not None) else "n")
+        return [f"cfg {start} {step} {stop}", "sched " + (",".join(sched) if sched else "-"), f"init {init}"], stop
+
+    def _resume_lines(self, case, obs, r):
+        pre, stop = self._skeleton_prefix(case["spec"], obs["full"]["events"])
+        interactive = r.get("ctx") == "InteractiveContext"
+        drive = {"step": "loop", "take": "loop", "run": f"until {stop}" if interactive else "run", "until": f"until {stop}" if interactive else "run"}[r["mode"]]
+        lost = ["steps 1"] if r["src"] == "crash" and r["boundary"] < obs["nsteps"] else []      # the step the crashed process was in
+        return pre + [f"steps {r['boundary']}", "backup"] + lost + ["restore", drive, "finalize", "log"]
+
+    def model_lines(self, case, obs):
+        if obs["full"].get("error"):
+            return []
+        lines = []
+        for r in obs["resumed"]:
+            if r["error"] or r["save_error"] or not r["events"] or str(r["n"]).startswith("chain"):
+                continue
+            lines += self._resume_lines(case, obs, r)
+        return lines
+
+    def compare(self, case, obs, replies):
+        out, k = [], 0
+        tag = {"time_step__prepare": "prepare", "collect_metrics": "metrics", "simulation_end": "end"}
+        for r in obs["resumed"]:
+            if r["error"] or r["save_error"] or not r["events"] or str(r["n"]).startswith("chain"):
+                continue
+            n = len(self._resume_lines(case, obs, r))
+            blk = replies[k:k + n]
+            k += n
+            if any(x.startswith(("err", "bad-op")) for x in blk):
+                out.append(f"model refuses {r['n']}: {blk}")
+                continue
+            m = [[tag[a], int(b), int(c)] for a, b, c in (x.split(":") for x in blk[-1].split(",")) if a in tag]
+            i = [[e[0], e[1], e[2]] for e in r["events"]]
+            if m != i:
+                j = next((j for j, (a, b) in enumerate(zip(i, m)) if a != b), min(len(i), len(m)))
+                out.append(f"resumed {r['n']}: event skeleton differs at #{j}: impl {i[j] if j < len(i) else None}, model {m[j] if j < len(m) else None}")
+        return out
+
+    # ------------------------------------------------------------------ the property on the observed behaviour
     def oracle(self, case, obs):
+        from .. import components
         f = []
         if obs["full"]["error"]:
             return [{"sig": "run-raised", "msg": obs["full"]["error"] + obs["full"].get("trace", "")}]
         base = obs["full"]
+        want = components.expected_steps(case["spec"])
+        if want is not None and obs["nsteps"] != want:
+            f.append({"sig": "step-count-not-from-configuration", "msg": f"the uninterrupted run took {obs['nsteps']} steps, the configuration gives {want}"})
+        for s in obs["savers"]:
+            if s["error"]:
+                if not _cpython(s["error"], s["trace"]):
+                    f.append({"sig": "backup-raised", "msg": f"writing the backups ({s['src']}): {s['error']} {s['trace']}"})
+            elif s["digests"] != base["digests"] or s["results"] != base["results"]:
+                k = next((k for k, (a, b) in enumerate(zip(s["digests"], base["digests"])) if a != b), min(len(s["digests"]), len(base["digests"])))
+                f.append({"sig": "backup-perturbs-run", "msg": f"the run that wrote its backups ({s['src']}) differs from the run that wrote none at digest #{k}: "
+                          f"{s['digests'][k] if k < len(s['digests']) else None} != {base['digests'][k] if k < len(base['digests']) else None}"})
+            elif s["boundaries"] != obs["nsteps"] + 1:
+                f.append({"sig": "backup-count", "msg": f"{s['src']}: {s['boundaries']} boundaries seen, the run has {obs['nsteps'] + 1}"})
         for r in obs["resumed"]:
-            if r["save_error"] and r["save_error"].startswith("AssertionError") and "in memoize" in r["save_trace"] and "pickle.py" in r["save_trace"]:
-                # CPython's pickler asserts when two EMPTY buffers share an id (protocol 5, empty numpy arrays of an empty
-                # population): an interpreter defect, not vivarium's; the boundary is skipped and counted in the tags
+            if _cpython(r["save_error"], r["save_trace"]):
                 continue
             if r["save_error"]:
-                f.append({"sig": "backup-raised", "msg": f"boundary {r['n']}: {r['save_error']} {r['save_trace']}"})
-            elif r["error"]:
-                f.append({"sig": "resume-raised", "msg": f"boundary {r['n']}: {r['error']} {r['trace']}"})
+                if r["src"] == "crash":
+                    f.append({"sig": "backup-raised", "msg": f"boundary {r['n']}: {r['save_error']} {r['save_trace']}"})
+                continue        # (a saver that failed is reported once, above)
+            if _cpython(r["error"], r["trace"]):
+                continue        # the SECOND backup of a twice-interrupted run met the same interpreter assertion
+            if r["error"]:
+                stored = (case["spec"].get("pop_extra") or {}).get("residual") == "stored"     # candidate finding, see notes/agent-reports/C18.md
+                f.append({"sig": "residual-choice-sentinel-lost-in-backup" if stored and r["error"].startswith("TypeError") else "resume-raised",
+                          "msg": f"boundary {r['n']}: {r['error']} {r['trace']}"})
             elif r["digests"] != base["digests"]:
                 k = next((k for k, (a, b) in enumerate(zip(r["digests"], base["digests"])) if a != b), min(len(r["digests"]), len(base["digests"])))
                 f.append({"sig": "resumed-state-differs", "msg": f"interrupted after step {r['n']}: digest #{k} "
@@ -124,15 +272,28 @@ class C18(Prop):
     def tags(self, case, obs):
         s = case["spec"]
         t = [s["clock"], f"crn{s['crn_keys']}", f"boundaries:{obs.get('nsteps', 0) + 1}"]
-        for k in ("mort", "disease", "stepmod", "obs", "extras"):
+        for k in ("mort", "disease", "stepmod", "obs", "extras", "pop_extra", "newborn", "perm"):
             t.append(k if s.get(k) else "no-" + k)
-        t += ["resumed-ok" for r in obs["resumed"] if not r["error"] and not r["save_error"]]
-        t += ["skipped:cpython-empty-buffer-pickle-assert" for r in obs["resumed"]
-              if r["save_error"] and r["save_error"].startswith("AssertionError") and "in memoize" in r["save_trace"]]
+        o, x, d = s.get("obs") or {}, s.get("extras") or {}, s.get("disease") or {}
+        t += [f"obs:{k}" for k in ("rich", "values", "defaults") if o.get(k)]
+        t += [f"extras:{k}" for k in ("cat", "tables", "ds", "art", "private", "foreign") if x.get(k)] + (["extras:late"] if x.get("late") is not None else [])
+        t += [f"disease:{k}" for k in ("excess", "trig", "transient") if d.get(k)]
+        for r in obs["resumed"]:
+            ok = not r["error"] and not r["save_error"]
+            if ok:
+                t += ["resumed-ok", f"source:{r['src']}", f"resume-mode:{r['mode']}", f"resumed-as:{r.get('ctx')}"]
+                if str(r["n"]).startswith("chain"):
+                    t.append("interrupted-twice")
+                if "+" in str(r["n"]) and not str(r["n"]).startswith("chain"):
+                    t.append("restored-after-other-simulations")
+            if _cpython(r["save_error"], r["save_trace"]) or _cpython(r["error"], r["trace"]):
+                t.append("skipped:cpython-empty-buffer-pickle-assert")
+        t += [f"saver:{sv['src']}" for sv in obs.get("savers", []) if not sv["error"]]
         return t
 
     def sample_view(self, case, obs):
         return {"spec": case["spec"], "hs_save": case["hs_save"], "hs_resume": case["hs_resume"], "boundaries": obs.get("nsteps", 0) + 1,
+                "resumed": [r["n"] for r in obs.get("resumed", [])][:12],
                 "full_digests": (obs["full"].get("digests") or [])[:5], "results": obs["full"].get("results")}
 
 
